@@ -104,6 +104,11 @@ concrete replay):
 * `C07-w3-async-split-registers-phantom-worker`, `C07-w3-async-work-into-sync-double-release`: `split_async`,
   `split_mut_async`, `into_sync` were never called → `asyncdiff` builds half of its concurrent heap cases through them and
   judges liveness flags and releases with the life-cycle oracle.
+* `C03-w3-extract-item-releases-slot-before-reading` (publish, then read the slot) is the one change reported without a
+  failing input, and analysis says there is none for C03: because one slot always stays free, the slot a consumer has just
+  released is the last one the producer can reach, so nobody's access can overlap the late read (the author's demo fails
+  on an assertion that the producer's push is *refused*, which C03 does not say; the pushed item goes to another slot).
+  The check reports what it can show: the conformance theorem "data accesses precede the publication" no longer holds.
 * `C07-w2-release-before-flag-clear` and friends are additionally refused by the drop-protocol replay on the Lean machine
   (`decrement-before-flag-clear`).
 
